@@ -359,3 +359,12 @@ pub mod status {
 }
 ''' % (ctors, EMPTY, _ens(CONTRACTS['into_http']), _ens(CONTRACTS['to_header_map']), _ens(CONTRACTS['from_header_map']),
        _ens(CONTRACTS['add_header']), _ens(CONTRACTS['infer_grpc_status'])))
+
+
+# the grpc-web trailers header block, shared by units webserver (writer) and webtrailers (reader + round trip)
+TRAILER_ROW_SPEC = r'''// the HTTP/1 header block of a trailers map (PROTOCOL-WEB.md): one `name:value\r\n` row per entry, in iteration order
+pub open spec fn trailer_row(e: (Seq<char>, Seq<u8>)) -> Seq<u8> { ascii_bytes(e.0) + seq![58u8] + e.1 + seq![13u8, 10u8] }
+pub open spec fn block_of(s: Seq<(Seq<char>, Seq<u8>)>) -> Seq<u8> decreases s.len() {
+    if s.len() == 0 { Seq::<u8>::empty() } else { block_of(s.drop_last()) + trailer_row(s.last()) }
+}
+'''
